@@ -58,7 +58,8 @@ def _cases(tier, seed):
         for op in ('add', 'sub', 'mul'):
             cs.append({'scen': 'ttm_binop', 's': {'op': op, 'M': M, 'N': N, 'RA': RA, 'RB': [1, 1, 1], 'dtype': dt}})
     # scalar operations on operators
-    for M, N, RA in [([2], [3], [1, 1]), ([2, 1], [1, 3], [1, 2, 1]), ([1, 2, 2], [2, 1, 2], [1, 2, 2, 1])]:
+    for M, N, RA in [([2], [3], [1, 1]), ([2, 1], [1, 3], [1, 2, 1]), ([1, 2, 2], [2, 1, 2], [1, 2, 2, 1]), ([2, 2], [1, 3], [1, 1, 1]), ([2, 1, 2], [1, 2, 2], [1, 2, 1, 1]),
+                     ([2, 1, 2], [1, 2, 2], [1, 1, 2, 1])]:
         for op in ('add', 'radd', 'sub', 'rsub', 'mul', 'rmul', 'div'):
             for sk in ('float', 'tensor0', 'tensor1'):
                 if op in ('radd', 'rsub', 'rmul') and sk != 'float':
